@@ -164,4 +164,9 @@ class TheCheck(SeqCheck):
         sts.append(Stream("sequences", pack(self.gen_sequences(3 if quick else 4)), history=True,
                           note="all op sequences up to the length bound over 13 ops x 3 policies x capacity 0..2"))
         sts.append(Stream("random", pack(self.gen_random(100 if quick else 1500, 120)), history=True))
+        if not quick:
+            # byte sizes beyond 2^31 (2^25+1 elements of 64 bytes is corpus/C10/huge_removeat_int_size.ops)
+            sts.append(Stream("huge", ["huge 2049 1048576", "huge 4194305 512", "huge 4099 1048576"], history=False, nomodel=True,
+                              note="self-checking passes of the harness over vectors of more than 2^31 (the last: 2^32) bytes: fill, addfirst, "
+                                   "addat(+-k), removefirst, removeat, popat, reverse; every element verified after every step"))
         return sts
